@@ -172,6 +172,16 @@ def run_global(shard, mon: Mon):
             mon.inconclusive.append(f"oracle disagrees with test-suite literals: {bad[:3]}")
         for t in lits["valid"] + lits["experimental"] + lits["invalid"]:
             judge.judge_iban_accept(mon, t, table, "anchors")
+    # texts that have just been accepted by the *other* class in this process (BIC) are judged as IBANs
+    S_ = judge.lib()
+    bics_ = sorted({e_.get("bic", "") for e_ in data.banks() if e_.get("bic")})
+    for b_ in rng.sample(bics_, min(40, len(bics_))) + ["DEUTDEFF500", "NWBKGB2L", "deut de ff"]:
+        for f_ in (lambda: S_.BIC(b_), lambda: S_.BIC(b_, allow_invalid=True).is_valid, lambda: S_.BIC(b_).exists):
+            try:
+                f_()
+            except Exception:  # noqa: BLE001, S110
+                pass
+        judge.judge_iban_accept(mon, b_, table, "after_accepted_as_bic")
     # W5 prefix sweep
     by_len = {}
     for cc in cs:
